@@ -274,6 +274,7 @@ func run(c *core.Ctx) {
 		gens.Trees(4, mediumLeaves(), keys, each("trees-medium", false))
 	}
 	keyFamily(each("keys", !c.Quick()))
+	byteSeqFamily(c.Pick(2, 3), each("byte-sequences", false))
 	gens.Chains([]any{nil, "", int64(1), "x"}, each("chains", true))
 	gens.IndentChains(each("indent-chains", false))
 	gens.Tables(c.Quick(), !c.Quick(), each("tables", true))
@@ -695,6 +696,35 @@ func keyFamily(fn func(t any) bool) {
 	}
 	// several escaped keys together (sorting happens on the raw key)
 	fn(map[string]any{"\"": int64(1), "\\": int64(2), "\x01": int64(3), "é": int64(4), "<": int64(5), " ": int64(6), "\x80": int64(7), "": int64(8)})
+}
+
+// byteSeqFamily: every string of up to three bytes over one representative per
+// byte class that the string writer treats differently (plain, quote,
+// backslash, control, continuation byte, the leads of 2-, 3- and 4-byte
+// sequences, a byte that is never valid), as a value and as a key. A lead
+// byte followed by a quote, a backslash or a control character is where a
+// writer that trusts the lead emits broken JSON.
+func byteSeqFamily(maxLen int, fn func(t any) bool) {
+	classes := []byte{'a', '"', '\\', '\n', 0x80, 0xC2, 0xE2, 0xF0, 0xFF}
+	var rec func(prefix []byte) bool
+	rec = func(prefix []byte) bool {
+		if len(prefix) > 0 {
+			str := string(prefix)
+			if !fn([]any{str, "z"}) || !fn(map[string]any{"k": str, "z": int64(1)}) || !fn(map[string]any{str: int64(1)}) {
+				return false
+			}
+		}
+		if len(prefix) == maxLen {
+			return true
+		}
+		for _, b := range classes {
+			if !rec(append(append([]byte{}, prefix...), b)) {
+				return false
+			}
+		}
+		return true
+	}
+	rec(nil)
 }
 
 func longFamily(fn func(t any) bool) {
